@@ -238,6 +238,10 @@ func verifyFunction(w *World, specs *Specs, tt *TypeTable, fn *ssa.Function, c *
 		st.assume = append(st.assume, vc.trClause(env, inv))
 		vc.usedTrusted[fmt.Sprintf("object invariant [%s] of %s: assumed at method entry (established by the constructor, re-proved at every return of every method that carries it; the representation is private to the package)", inv.Label, shortFuncKey(c.Key))] = true
 	}
+	vc.entryMeasure = nil
+	for _, d := range vc.effective.Decreases {
+		vc.entryMeasure = append(vc.entryMeasure, vc.trMeasure(env, d))
+	}
 	vc.initGuards(st, env)
 	vc.buildProbes(st, env)
 	vc.cover(st, "requires-satisfiable", posString(w, fn.Pos()), vc.effective.Props)
@@ -400,6 +404,29 @@ func main() {
 		os.Exit(cmdCheck(os.Args[2:]))
 	case "dump":
 		os.Exit(cmdDump(os.Args[2:]))
+	case "scc":
+		// govc scc [-repo dir] -func substr: the recursive group (strongly connected component of the call graph used
+		// by the termination rule) of every function whose key contains substr
+		o := parseOpts(os.Args[2:])
+		w, err := loadWorld(o.repo, []string{"./..."})
+		if err != nil {
+			fmt.Fprintln(os.Stderr, err)
+			os.Exit(2)
+		}
+		g := buildTermGraph(w)
+		for _, k := range sortedKeys(g.edges) {
+			if o.fn != "" && strings.Contains(k, o.fn) {
+				grp := g.group(k)
+				if len(grp) > 1 || g.self[k] {
+					fmt.Printf("%s: recursive group of %d\n", k, len(grp))
+					for _, m := range grp {
+						fmt.Println("   ", m)
+					}
+				} else {
+					fmt.Printf("%s: not recursive\n", k)
+				}
+			}
+		}
 	default:
 		fmt.Fprintln(os.Stderr, "unknown command", os.Args[1])
 		os.Exit(2)
@@ -515,7 +542,7 @@ func generate(o *options) (*runOutput, error) {
 				}
 			}
 		}
-		if !contractMentions(eff, o.prop) {
+		if o.prop != "ANY" && !contractMentions(eff, o.prop) {
 			continue
 		}
 		if o.fn != "" && !strings.Contains(key, o.fn) {
@@ -546,7 +573,7 @@ func generate(o *options) (*runOutput, error) {
 		if !ax.Lemma {
 			continue
 		}
-		if o.prop != "" && !hasProp(ax.Props, o.prop) {
+		if o.prop != "" && o.prop != "ANY" && !hasProp(ax.Props, o.prop) {
 			continue
 		}
 		if o.fn != "" && !strings.Contains("lemma:"+ax.Label, o.fn) {
